@@ -257,6 +257,19 @@ func c14Gen(c *Ctx) {
 			binary.LittleEndian.PutUint32(big[16:], 28+0x7ffffff0)
 			binary.LittleEndian.PutUint32(big[24:], 0x7ffffff0)
 			emit(ep, "huge-consistent", "", big)
+			// a consistent header that promises many signatures of the list's own size (ListSize =
+			// 28 + n * SignatureSize) over an input that holds one or two: any allocation sized by the
+			// declared count is unrelated to the input size
+			sz := binary.LittleEndian.Uint32(seed[24:])
+			for _, n := range []uint32{1 << 12, 1 << 16, 1 << 21, (0xffffffff - 28) / sz} {
+				if uint64(28)+uint64(n)*uint64(sz) > 0xffffffff {
+					continue
+				}
+				many := append([]byte{}, seed...)
+				binary.LittleEndian.PutUint32(many[16:], 28+n*sz)
+				emit(ep, "many-consistent", "", many)
+				emit(ep, "many-consistent", "", many[:28+int(sz)])
+			}
 			for cut := 0; cut < len(seed); cut += 1 + len(seed)/40 {
 				emit(ep, "truncated", "", seed[:cut])
 			}
@@ -406,7 +419,7 @@ func c14Gen(c *Ctx) {
 
 func init() {
 	register("C14", &PropDef{
-		Rule:   "17 decoder entry points (ReadSignatureDatabase/List/Data, ReadEFIVariableAuthencation2, ReadWinCertificate(UEFIGUID), EFILoadOption.Unmarshal + Format, ParseDevicePath + Format, ParseUtf16Var, Efistring, boot order, GetSupportedSignatures, ParseEfivars, StringToGUID, BytesToGUID, ReadKey, ReadCert) run in a sandboxed worker process (address-space limit, per-input timeout, runtime.MemStats.TotalAlloc delta). Inputs: every size field of lists / descriptors / certificates swept over {0,1,7,8,15,16,17,23,24,27,28,29,2^16,2^24,2^31,2^32-1,...}, consistent headers promising 2 GiB, every truncation point, captured and generated load options cut everywhere / without end node / byte-mutated, every device-path (type, subtype) with 0..38 bytes of data, every partition-format byte, UTF-16 edge cases, random short inputs, PEM material cut and mutated. Non-trivial: non-empty input; distinct = distinct (entry point, input). Static part: the call-graph certificate (see the Lean obligations).",
+		Rule:   "17 decoder entry points (ReadSignatureDatabase/List/Data, ReadEFIVariableAuthencation2, ReadWinCertificate(UEFIGUID), EFILoadOption.Unmarshal + Format, ParseDevicePath + Format, ParseUtf16Var, Efistring, boot order, GetSupportedSignatures, ParseEfivars, StringToGUID, BytesToGUID, ReadKey, ReadCert) run in a sandboxed worker process (address-space limit, per-input timeout, runtime.MemStats.TotalAlloc delta). Inputs: every size field of lists / descriptors / certificates swept over {0,1,7,8,15,16,17,23,24,27,28,29,2^16,2^24,2^31,2^32-1,...}, consistent headers promising one 2 GiB signature or 2^12..2^26 signatures of the list's own size, every truncation point, captured and generated load options cut everywhere / without end node / byte-mutated, every device-path (type, subtype) with 0..38 bytes of data, every partition-format byte, UTF-16 edge cases, random short inputs, PEM material cut and mutated. Non-trivial: non-empty input; distinct = distinct (entry point, input). Static part: the call-graph certificate (see the Lean obligations).",
 		Assume: []string{"allocation budget 64 bytes per input byte + 2 MiB; time limit 3 s per input", "wall-clock time and resident memory are runtime facts measured on the sampled inputs only"},
 		Eval:   c14Eval, Gen: c14Gen,
 	})
